@@ -20,6 +20,8 @@ func init() {
 			c.ruleRegistryLock("R-REG-LOCK")
 			c.ruleSearchExhaustive("R-SEARCH-EXHAUSTIVE", "reflect/protoregistry", 2)
 			c.ruleLookupKeyUnfiltered("R-LOOKUP-KEY-UNFILTERED")
+			c.ruleConflictPolicy("R-CONFLICT-POLICY")
+			c.ruleRangeStop("R-RANGE-STOP", "reflect/protoregistry", 5)
 		},
 	})
 }
